@@ -24,7 +24,8 @@ SendFaults(e) ==
   IN
   (IF Len(e.head) # hl + 4 \/ SubSeq(e.head, 1, hl) # Hdr(e.fin, 0, e.op, 1, e.n)
    THEN {"C01.header (fin/opcode/rsv/mask bit/shortest length form)"} ELSE {})
-  \cup (IF Len(e.draws) # 1 THEN {"C01.key_drawn_once_per_frame"}
+  \cup (IF e.keyKind = "default" /\ Len(e.draws) = 0 /\ e.keyVaries THEN {}   \* default source reached through another route than os.urandom: only freshness is observable
+        ELSE IF Len(e.draws) # 1 THEN {"C01.key_drawn_once_per_frame"}
         ELSE IF e.draws[1][1] # 4 THEN {"C01.key_source_asked_for_4_bytes"}
         ELSE IF e.draws[1][2] # key THEN {"C01.key_on_wire_is_the_one_drawn"} ELSE {})
   \cup (IF e.wireLen # hl + 4 + e.n THEN {"C01.frame_length"} ELSE {})
